@@ -1,9 +1,10 @@
 #!/bin/bash
-# usage: tools/run_all.sh <tier> <seed> [ids...]   — runs checks sequentially, prints one line per check
+# usage: tools/run_all.sh <tier> <seed> [ids...]   — runs checks sequentially (in the tree this script lives in), one line per check
 tier=$1; seed=$2; shift 2
-ids=${@:-$(python3 -c "import json;print(' '.join(c['property_id'] for c in json.load(open('/verif/MANIFEST.json'))['checks']))")}
-cd /verif
+cd "$(dirname "$0")/.." || exit 2
+ids=${@:-$(python3 -c "import json;print(' '.join(c['property_id'] for c in json.load(open('MANIFEST.json'))['checks']))")}
 for id in $ids; do
   s=$(date +%s); out=$(VERIF_SEED=$seed ./check $id $tier 2>&1); rc=$?; e=$(( $(date +%s)-s ))
   echo "$id $tier seed=$seed exit=$rc ${e}s $(echo "$out" | grep -E '^(VIOLATION|INCONCLUSIVE|KNOWN)' | head -2 | tr '\n' ' ')"
+  if [ $rc -ne 0 ]; then echo "$out" | tail -40; fi
 done
